@@ -143,6 +143,23 @@ def check(ctx):
         pg = P.lookup_prop(A, prop, 'get')
         if not pg or ast.unparse(pg[1].body[-1]) != f'return {want}':
             o.fail(P, f'Asset.{prop}', f'return {want}', f'Asset.{prop} does not report the stored quantity', file=A.mod.path, line=A.node.lineno)
+    # value / value_history / add_value / add_cost mean the same for every asset kind: the only redefinitions are the listed ones
+    # (a Batch is worth the sum of its parts and refuses value changes of its own -- C16.6)
+    ALLOWED_OVERRIDES = {('Batch', 'value'), ('Batch', 'add_value')}
+    for k in P.subclasses(A):
+        if k is A:
+            continue
+        for nm in ('value', 'value_history', 'add_value', 'add_cost', '_value', '_value_history'):
+            defined = nm in k.methods or nm in getattr(k, 'props', {}) or any(
+                isinstance(s_, ast.FunctionDef) and s_.name == nm for s_ in k.node.body) or any(
+                isinstance(s_, ast.Assign) and any(isinstance(t, ast.Name) and t.id == nm for t in s_.targets) for s_ in k.node.body)
+            if defined:
+                o.count()
+                if (k.name, nm) not in ALLOWED_OVERRIDES:
+                    o.fail(P, f'{k.name}.{nm}', nm, f'{k.name} redefines `{nm}`: for this kind of asset the reported value no longer equals the starting value plus the recorded changes '
+                           '(and every tally that reads it is off)', file=k.mod.path, line=k.node.lineno)
+                else:
+                    o.witness(('override', k.name, nm))
     # starting value kept for the reset
     init = P.method(A, '__init__')[1]
     o.count()
